@@ -70,15 +70,20 @@ def infer_redirection(url, recursive=True):
             elif potential_target.startswith("/"):
                 # NOTE: joining needs a scheme, else the host of a url given
                 # without protocol is lost
-                if PROTOCOL_RE.match(url.lstrip()):
-                    target = urljoin(url, potential_target)
-                else:
-                    target = urljoin("http://" + url, potential_target)[7:]
+                # NOTE: joining raises on a malformed base (e.g. unbalanced
+                # brackets in the netloc), in which case there is nothing to follow
+                try:
+                    if PROTOCOL_RE.match(url.lstrip()):
+                        target = urljoin(url, potential_target)
+                    else:
+                        target = urljoin("http://" + url, potential_target)[7:]
+                except ValueError:
+                    target = None
 
                 # NOTE: joining a target found in the query always yields a
                 # shorter url. Else the hint was found in the netloc, was kept
                 # by the join and following it would never end.
-                if len(target) >= len(url):
+                if target is not None and len(target) >= len(url):
                     target = None
 
             # Idiotic youtube redirections
